@@ -355,7 +355,7 @@ func c19ProcWalker(t *rapid.T) {
 				}
 			}
 			if plain {
-				walkNode, walkPath = d.node, rapid.SampledFrom([]string{"%s", "%s/", "./%s"}).Draw(t, "rootSpelling")
+				walkNode, walkPath = d.node, rapid.SampledFrom([]string{"%s", "%s/", "./%s", "././%s"}).Draw(t, "rootSpelling")
 				walkPath = fmt.Sprintf(walkPath, d.path)
 			}
 		}
